@@ -710,7 +710,8 @@ func genC08Runs(g *G) {
 	tw := make([]byte, 32)
 	copy(tw, g.Bytes(32))
 	tw[0] &= 0x7f
-	g.Emit("signrun", "frost", subsets[g.Intn(6)], digest(), hex.EncodeToString(tw), itoa(1+g.Intn(1000)))
+	// a FROST signing session and a FROST refresh that RAISES the threshold (same committee), side by side: ~11 s for both
+	g.Emit("frostpair", subsets[g.Intn(6)], digest(), hex.EncodeToString(tw), []string{"0,1,2", "2,0,1", "1,2,0"}[g.Intn(3)], "2", itoa(1+g.Intn(1000)))
 	// real ECDSA refreshes that RAISE and then LOWER the threshold, then threshold+1 holders sign with the refreshed shares
 	g.Emit("resharerun", "ecdsa", "2,1", itoa(1+g.Intn(1000)))
 	g.Emit("resharerun", "ecdsa", "1", itoa(1+g.Intn(1000)), []string{"0,1", "1,2", "2,0"}[g.Intn(3)]) // one holder leaves
